@@ -15,6 +15,8 @@
 //verif:obligation C11.a reservation caps on every history of 3 (thorough 4) RESERVE requests (real handleReserve + constraints.Reserve) from 3 peers over 2 IPv4 addresses with symbolic clock advances, relayed-source flag and ACL answers, caps MaxReservations / MaxReservationsPerIP in 1..2: after every request the number of unexpired reservations never exceeds the total cap nor the per-IP cap, a refused request creates no reservation, a request over a relayed connection or denied by the ACL is refused, a granted reservation is tagged, and a disconnect drops the peer's reservation
 //verif:obligation C11.b every exit of handleConnect (span / memory refusal, relayed source, malformed peer, ACL denial, no reservation, circuit caps, stream open failure, service / memory refusal on the stop stream, stop handshake write / read / type / status failure, hop response write failure): the per-peer circuit counters, hop tags, the span and its memory are back to their previous values; a circuit is granted only if the destination holds a reservation, the source did not arrive over a relay, the ACL allows it and both peers are below MaxCircuits; after a granted circuit ends everything is restored too
 //verif:obligation C11.c data limit: on a limited relay each direction forwards at most Limit.Data bytes (both directions are limited) and the copy loop accounts exactly the bytes the sink accepted; copyWithBuffer never reports more than was written, flags impossible write counts, and stops at the first error
+//verif:obligation C11.c' the real relayLimited (the copy loop with the configured limit in front of it) for every limit 0..8 and every script of <= 2 reads / writes with symbolic sizes and errors: never more than the limit reaches the destination - nothing when the limit is 0 -, the direction ends exactly once, a copy error resets both streams
+//verif:obligation C11.e Relay.gc from every state of 2 reservations (any expiry, 0..2 open circuits each, relay open or closed) at any instant: exactly the expired reservations are dropped (all when closed) together with their tag - also when the peer is part of an open circuit, since CONNECT only checks that a reservation is recorded - and circuit counts are kept
 //verif:obligation C11.d Relay.disconnected for every connectedness the network may report after a connection closed (not connected, connected, cannot connect, limited = only relayed connections left): the peer's reservation and its entries in the cap accounting disappear unless the peer is still directly connected; other peers' reservations are untouched
 //verif:bound 3 peers, 2 IPv4 addresses, caps 1..2, history 3 (4); one CONNECT per run with all stage outcomes symbolic; copy kernel: <= 2 (thorough 3) reads of <= 4 bytes with symbolic (n, err) on both sides
 //verif:stub host / connection manager / stream / scope / span / ACL are harness stub types; protobuf readers and writers, handleError / writeResponse / makeReservationMsg are hooked with symbolic outcomes; time.Now and manet.ToIP substituted at their call sites; net.IP.String injective stub in the symbolic run
@@ -559,6 +561,77 @@ func VerifC11cCopy() {
 		vCover("clean-end")
 	} else {
 		vCover("copy-error")
+	}
+}
+
+// the real relayLimited around the copy kernel: the limit is the configured one, for every value including 0
+type vC11limStream struct {
+	network.Stream
+	src                             *vC11src
+	dst                             *vC11dst
+	resets, closeWrites, closeReads int
+}
+
+func (s *vC11limStream) Read(b []byte) (int, error)  { return s.src.Read(b) }
+func (s *vC11limStream) Write(b []byte) (int, error) { return s.dst.Write(b) }
+func (s *vC11limStream) Reset() error                { s.resets++; return nil }
+func (s *vC11limStream) CloseWrite() error           { s.closeWrites++; return nil }
+func (s *vC11limStream) CloseRead() error            { s.closeReads++; return nil }
+
+func VerifC11cRelayLimited() {
+	r := &Relay{rc: Resources{BufferSize: 4}}
+	k := 1 + vCase(2)
+	src := &vC11src{}
+	dst := &vC11dst{}
+	for i := 0; i < k; i++ {
+		src.ns = append(src.ns, vRange(0, 4))
+		src.errs = append(src.errs, vCase(3))
+		dst.ns = append(dst.ns, vRange(0, 4))
+		dst.fail = append(dst.fail, vBool())
+	}
+	limit := int64(vRange(0, 8))
+	from, to := &vC11limStream{src: src}, &vC11limStream{dst: dst}
+	dones := 0
+	r.relayLimited(from, to, "src", "dst", limit, func() { dones++ })
+	vAssert(int64(dst.total) <= limit, "in one direction never more than the configured number of bytes is forwarded - none at all when the configured number is 0")
+	if limit == 0 {
+		vCover("data-limit-zero")
+	}
+	vAssert(dones == 1, "the direction reports its end exactly once")
+	vAssert(from.resets+to.resets == 0 || (from.resets == 1 && to.resets == 1), "a copy error resets both streams")
+}
+
+// ---- C11.e: garbage collection of reservations ----
+
+func VerifC11eGC() {
+	defer vC11remove()
+	vC11install()
+	h := &vC11host{cm: &vC11cm{tags: map[string]int{}}}
+	r := vC11relay(h, Resources{ReservationTTL: time.Hour, MaxReservations: 4, MaxReservationsPerIP: 4, MaxReservationsPerASN: 100})
+	now := int64(vRange(1<<40, 1<<50))
+	vC11now = time.Unix(0, now)
+	var exp [2]int64
+	var circuits [2]int
+	for i := 0; i < 2; i++ {
+		exp[i] = int64(vRange(1<<40, 1<<50))
+		r.rsvp[vC11peers[i]] = time.Unix(0, exp[i])
+		h.cm.tags[string(vC11peers[i])+"/relay-reservation"] = 1
+		circuits[i] = vCase(3) // circuits the peer is part of right now
+		if circuits[i] > 0 {
+			r.conns[vC11peers[i]] = circuits[i]
+		}
+	}
+	r.closed = vBool()
+	r.gc()
+	for i := 0; i < 2; i++ {
+		_, still := r.rsvp[vC11peers[i]]
+		expired := exp[i] < now
+		if expired && circuits[i] > 0 {
+			vCover("expired-while-a-circuit-is-open")
+		}
+		vAssert(still == (!expired && !r.closed), "a collection drops exactly the reservations that have expired (all of them once the relay is closed) - also of a peer that is part of an open circuit: no circuit may be opened to a peer whose reservation has lapsed")
+		vAssert((h.cm.tags[string(vC11peers[i])+"/relay-reservation"] > 0) == still, "the reservation tag goes with the reservation")
+		vAssert(r.conns[vC11peers[i]] == circuits[i], "open circuits are not forgotten by a collection")
 	}
 }
 
